@@ -482,6 +482,26 @@ func WaitCond(what string, ready func() bool) {
 	Block(KCond, 0, what, ready)
 }
 
+// Settle blocks the calling harness thread until no other thread can run
+// (everything else finished, blocked, or politely yielding with nothing to do).
+//
+//go:norace
+func Settle(what string) {
+	ex := cur
+	if ex == nil {
+		return
+	}
+	me := ex.running
+	Block(KCond, 0, "settle:"+what, func() bool {
+		for _, t := range ex.threads {
+			if t != me && !t.done && ex.enabled(t) {
+				return false
+			}
+		}
+		return true
+	})
+}
+
 // LogEvent appends a harness observation; ordered observations are modelled
 // as writes to a log object so that state caching distinguishes their orders.
 //
@@ -610,8 +630,7 @@ func (ex *Exec) schedule(me *Thread) {
 			if len(opts) > 0 {
 				pick := 0
 				if len(opts) > 1 {
-					var cb [16]uint8
-					pick = ex.choose(false, cb[:len(opts)])
+					pick = ex.choose(false, make([]uint8, len(opts)))
 				}
 				t := ex.threads[opts[pick]]
 				ex.thrSum -= ex.thrKey(t)
@@ -788,7 +807,7 @@ func Choose(n int, what string) int {
 	if ex.aborting {
 		panic(AbortSentinel)
 	}
-	var buf [16]uint8
+	var buf [64]uint8
 	costs := buf[:0]
 	for i := 0; i < n; i++ {
 		c := uint8(1)
